@@ -251,6 +251,8 @@ class Extract:
                 return C(Fraction(str(fv)))
             if c["ty"] == "bool":
                 return C(1 if c["val"] == "true" else 0)
+            if c.get("def") and c["ty"] in FLOAT_TYS + ("usize", "u8", "u16", "u32", "u64", "i32", "i64"):
+                return S("const:%s" % c["def"])
             return ("u", "const %s" % c.get("val"))
         return self.place(body, op.place, depth, at)
 
@@ -265,6 +267,11 @@ class Extract:
             d = self.reaching_def(body, pl.local, at)
             if d is not None and d[0] == "assign" and d[2].rv["k"] == "bin" and d[2].rv["op"].endswith("WithOverflow"):
                 return self.rvalue(body, d[2], depth + 1, d[1])
+        # field i of a tuple local that is built once from operands: that operand
+        if len(fields) == 1 and fields[0][0] == "f" and fields[0][1].isdigit():
+            d = self.reaching_def(body, pl.local, at)
+            if d is not None and d[0] == "assign" and d[2].rv["k"] == "agg" and d[2].rv.get("agg") == "tuple" and int(fields[0][1]) < len(d[2].rv["ops"]):
+                return self.operand(body, d[2].rv["ops"][int(fields[0][1])], depth + 1, d[1])
         # payload of Option / Result / ControlFlow: `(x as Some).0`, `(x as Ok).0`, `(x as Continue).0` is the wrapped value
         if len(fields) == 2 and fields[0][0] == "dc" and fields[0][1] in ("Some", "Ok", "Continue") and fields[1][0] == "f" and fields[1][1] == "0":
             return self.local(body, pl.local, depth + 1, at)
@@ -347,6 +354,29 @@ class Extract:
             return self.call(body, dd, depth + 1, pos)
         return self.rvalue(body, dd, depth + 1, pos)
 
+    def _inline(self, tg, args, depth):
+        """result expression of a loop-free helper, parameters replaced by `args`; None if it has several different results"""
+        sub = Extract(self.prog, self.pv, self._inline_leaf(args), self.max_depth)
+        rets = []
+        for kind, pos, d in self.pv.defs(tg).get(0, []):
+            e = sub.rvalue(tg, d, depth, pos) if kind == "assign" else sub.call(tg, d, depth, pos)
+            rets.append(e)
+        nonconst = [e for e in rets if e[0] != "c"]
+        if len(nonconst) == 1:
+            return nonconst[0]
+        if not nonconst and len(rets) == 1:
+            return rets[0]
+        return None
+
+    def _inline_leaf(self, args):
+        outer = self.leaf
+
+        def leaf(ex, body, kind, obj):
+            if kind == "param" and 1 <= obj[0] <= len(args):
+                return args[obj[0] - 1]
+            return None
+        return leaf
+
     def _conversion_body(self, tg):
         """a crate function of one argument that only converts its argument between numeric types"""
         if tg.kind not in ("Fn", "AssocFn") or tg.nargs != 1:
@@ -426,6 +456,12 @@ class Extract:
         tg = self.prog.bodies.get(c.res) if c.res else None
         if tg is not None and len(t.args) == 1 and self._conversion_body(tg):
             return A(t.args[0])
+        if tg is not None and tg.kind in ("Fn", "AssocFn") and tg.id != body.id and depth < self.max_depth - 10 and not tg.natural_loops() and len(tg.reach) <= 12:
+            # a small loop-free crate-local helper: its result expression with the arguments substituted for its parameters
+            args = [A(x) for x in t.args]
+            r2 = self._inline(tg, args, depth + 1)
+            if r2 is not None and not unknowns(r2):
+                return r2
         if c.method == "branch" and c.trait == "std::ops::Try" and len(t.args) == 1:
             return A(t.args[0])
         if c.method in TRANSPARENT_METHODS and len(t.args) == 1 and re.search(r"\b(f32|f64|u8|u16|u32|u64|usize|i32|i64)\b", (c.def_args or "") + nm):
